@@ -510,8 +510,64 @@ type c14Bytes struct {
 	Max    int    `json:"max"`
 }
 
+// targetCLI hands the bytes to the commands: as the file to decrypt, as an
+// identities file, as a recipients file, as the input of age-keygen -y. A
+// command that dies of a panic exits with status 2 and a goroutine dump.
+func targetCLI(c c14Bytes, st *stats.Run) error {
+	bin := os.Getenv("VERIF_BIN")
+	if bin == "" {
+		return nil
+	}
+	p := hx.ThePool()
+	dir, err := os.MkdirTemp(".", "c14cli-")
+	if err != nil {
+		return pbt.Failf("C14/harness", "%v", err)
+	}
+	dir, _ = filepath.Abs(dir)
+	defer os.RemoveAll(dir)
+	os.WriteFile(filepath.Join(dir, "data"), c.Data, 0o600)
+	os.WriteFile(filepath.Join(dir, "key.txt"), []byte(refage.Bech32Encode("AGE-SECRET-KEY-", p.X25519[0])+"\n"), 0o600)
+	good := refFile(p, []hx.RecSpec{{Kind: "x25519", Idx: 0}}, hx.PRG(1, 16), 2, []byte("plaintext")).Bytes()
+	os.WriteFile(filepath.Join(dir, "good.age"), good, 0o644)
+	os.WriteFile(filepath.Join(dir, "in.txt"), []byte("plaintext"), 0o644)
+	var prog string
+	var args []string
+	switch c.Target {
+	case "cli-decrypt":
+		prog, args = "age", []string{"-d", "-i", "key.txt", "data"}
+	case "cli-identities":
+		prog, args = "age", []string{"-d", "-i", "data", "good.age"}
+	case "cli-recipients":
+		prog, args = "age", []string{"-R", "data", "-o", "out.age", "in.txt"}
+	default:
+		prog, args = "age-keygen", []string{"-y", "data"}
+	}
+	code, out, stderr := runCLI(dir, []string{"PATH=/nonexistent", "HOME=" + dir}, nil, filepath.Join(bin, prog), args...)
+	if code == -2 {
+		return pbt.Failf("C14/hang:"+c.Target, "%s %v did not finish within its time limit on a %d-byte input", prog, args, len(c.Data))
+	}
+	st.Case(code == 0, stats.Hash(append([]byte(c.Target), c.Data...)), "cli:"+c.Target, fmt.Sprintf("cli:exit=%d", code))
+	if (code != 0 && code != 1) || strings.Contains(stderr, "panic:") || strings.Contains(stderr, "goroutine ") || strings.Contains(stderr, "fatal error:") {
+		return pbt.Failf("C14/panic:"+c.Target, "%s %v on a hostile %d-byte input: exit status %d\n%s\ninput: %q", prog, args, len(c.Data), code, trunc([]byte(stderr)), trunc(c.Data))
+	}
+	if c.Target == "cli-decrypt" && code == 0 {
+		// whatever the command accepts, the reference implementation accepts, with the same plaintext
+		bin := c.Data
+		if b, derr := refage.DearmorLenient(string(c.Data)); derr == nil && bytes.HasPrefix(bytes.TrimLeft(c.Data, " \t\r\n"), []byte(refage.ArmorHeader)) {
+			bin = b
+		}
+		ref, rerr := refage.Decrypt(bin, p.RefKey(hx.RecSpec{Kind: "x25519", Idx: 0}))
+		if rerr != nil || string(ref) != out {
+			return pbt.Failf("C14/accepts-outside-spec", "age -d accepted a file the reference implementation rejects (%v) or decrypts differently: %q", rerr, trunc(c.Data))
+		}
+	}
+	return nil
+}
+
 func c14Run(c c14Bytes, st *stats.Run) error {
 	switch c.Target {
+	case "cli-decrypt", "cli-identities", "cli-recipients", "cli-keygen":
+		return targetCLI(c, st)
 	case "decrypt":
 		return targetDecrypt(c.Data, c.Max, false, st)
 	case "decrypt-armored":
@@ -535,8 +591,13 @@ func c14Gen(target string) func(t *rapid.T) c14Bytes {
 		c14LoadSeeds()
 		var pool [][]byte
 		switch target {
-		case "decrypt", "parse":
+		case "decrypt", "parse", "cli-decrypt":
 			pool = c14Seeds.files
+			if target == "cli-decrypt" {
+				pool = append(append([][]byte{}, c14Seeds.files...), c14Seeds.armored...)
+			}
+		case "cli-identities", "cli-recipients", "cli-keygen":
+			pool = append(append([][]byte{}, c14Seeds.keys...), c14Seeds.ssh...)
 		case "decrypt-armored", "armor":
 			pool = c14Seeds.armored
 		case "keys", "plugin":
@@ -875,6 +936,9 @@ func TestC14(t *testing.T) {
 	counts := map[string][2]int{"decrypt": {6000, 40000}, "decrypt-armored": {3000, 20000}, "armor": {10000, 80000}, "parse": {15000, 100000}, "keys": {15000, 100000}, "ssh": {4000, 25000}, "plugin": {10000, 60000}}
 	for _, tg := range []string{"decrypt", "decrypt-armored", "armor", "parse", "keys", "ssh", "plugin"} {
 		pbt.Rapid(s, "bytes-"+tg, s.N(counts[tg][0], counts[tg][1]), c14Gen(tg), run)
+	}
+	for _, tg := range []string{"cli-decrypt", "cli-identities", "cli-recipients", "cli-keygen"} {
+		pbt.Rapid(s, "bytes-"+tg, s.N(120, 1500), c14Gen(tg), run)
 	}
 	pbt.Rapid(s, "unwrap-stanzas", s.N(4000, 30000), c14GenStanzas, func(c c14Stanzas) error { return targetUnwrap(c, s.St) })
 	pbt.Rapid(s, "plugin-output", s.N(250, 1500), func(t *rapid.T) c14Plug {
